@@ -1,6 +1,28 @@
 """C37 — both sides of a bidirectional relationship always agree (ormsim)."""
 from props import _orm
 
+
+def _cfg(rng, cfg):
+    cfg["o2o_steal"] = rng.random() < 0.1      # KF-C37-1 is exercised in a few histories only (it ends them)
+
+
+def _shape(rng, pool, cfg):
+    """one-to-one take-over scenarios (two owners, one member or one owner, two members), then free play"""
+    if rng.random() > 0.15:
+        return None
+    r = lambda: rng.randrange(64)
+    odd = lambda: 1 + 6 * rng.randrange(10)          # a2 % 3 != 0 and odd: parent side assignment;  +3 -> even: member side
+    prog = [["mk", 0, 1 + 3 * rng.randrange(20)], ["mk", 7, 1 + 3 * rng.randrange(20)], ["mk", 0, 1 + 3 * rng.randrange(20)],
+            ["mk", 7, 1 + 3 * rng.randrange(20)]]
+    if rng.random() < 0.5:
+        prog.append([rng.choice(("flush", "commit")), 0, 0])
+    for _ in range(rng.randint(2, 5)):
+        prog.append(["set_p", rng.randrange(2), rng.choice((1, 5, 7, 11, 2, 4, 8, 10))])
+        if rng.random() < 0.3:
+            prog.append([rng.choice(("flush", "lazy", "commit", "rollback")), r(), r()])
+    prog += [[rng.choice(pool), r(), r()] for _ in range(rng.randint(0, 10))]
+    return prog
+
 _orm.define(globals(), "C37", ("C37",), "backrefs",
             "deterministic simulation: seeded ORM session histories mutating either side of one-to-many / many-to-one, one-to-one, many-to-many "
             "and self-referential backref pairs (append, remove, replace, slice, reassign, delete of the attribute) interleaved with flush, "
@@ -10,4 +32,4 @@ _orm.define(globals(), "C37", ("C37",), "backrefs",
             "C30 reload oracle.  Sampled.",
             "dict- and set-based collections are not part of the universe",
             weights={"set_parent": 6, "bs_append": 5, "bs_remove": 5, "bs_replace": 4, "tag_add": 4, "tag_remove": 4, "node_parent": 5, "follow": 4,
-                     "unfollow": 3, "set_p": 4, "lazy": 3, "flush": 3, "commit": 2, "rollback": 2})
+                     "unfollow": 3, "set_p": 4, "lazy": 3, "flush": 3, "commit": 2, "rollback": 2, "g_ops": 4}, cfg_fn=_cfg, shape=_shape)
